@@ -29,8 +29,19 @@ ASSUMPTIONS = [
 ]
 
 
-def build_parser(L, conc, tokcfg, smart, explicit_start=True, decl=None):
-    """decl: declaration order of the productions dict - None / 'topdown', 'bottomup' or a list of ints (shuffle key)"""
+def _parser_subclass(L):
+    """a user's parser class: LLParser subclass whose constructor supplies the tokenizer (the documented way of use);
+    every call makes a new class with the same name"""
+    class GeneratedParser(L.LLParser):
+        def __init__(self, prods, **kw):
+            super().__init__(gk.TOKENIZER, productions=prods, **kw)
+    return GeneratedParser
+
+
+def build_parser(L, conc, tokcfg, smart, explicit_start=True, decl=None, via=None):
+    """decl: declaration order of the productions dict - None / 'topdown', 'bottomup' or a list of ints (shuffle key);
+    via: None - LLParser itself; 'subclass' - an object of a user's subclass, created after an object of a same-named
+    sibling class (and of the very same class) with another grammar for the same start symbol"""
     names = list(conc["prods"])
     if decl == "bottomup":
         names.reverse()
@@ -40,6 +51,13 @@ def build_parser(L, conc, tokcfg, smart, explicit_start=True, decl=None):
     kw = dict(tokcfg)
     if explicit_start or conc["start"] != "E":
         kw["start_symbol_name"] = conc["start"]
+    if via == "subclass":
+        word = conc["all_names"]["WORD"] if "all_names" in conc else "WORD"
+        decoy = {conc["start"]: [(word, word, word)]}
+        _parser_subclass(L)(decoy, smart_factorization=smart, **kw)
+        cls = _parser_subclass(L)
+        cls(decoy, smart_factorization=smart, **kw)
+        return cls(prods, smart_factorization=smart, **kw)
     return L.LLParser(gk.TOKENIZER, productions=prods, smart_factorization=smart, **kw)
 
 
@@ -130,7 +148,8 @@ def evaluate(case):
     key_extra = []
     for smart in (True, False):
         try:
-            parser = build_parser(L, conc, tokcfg, smart, case.get("explicit_start", True), case.get("decl"))
+            parser = build_parser(L, conc, tokcfg, smart, case.get("explicit_start", True), case.get("decl"),
+                                  case.get("via"))
         except L.GrammarIsRecursive:
             classes.add("constructor_rejects_recursive")
             continue
@@ -216,6 +235,8 @@ def evaluate(case):
                 break
     if case["syn"]:
         classes.add("synonyms")
+    if case.get("via"):
+        classes.add("parser_is_object_of_user_subclass")
     if case["kw"] and any(k.startswith("KW_") for k in case["g"]["terms"]):
         classes.add("keyword_terminals")
     key = [conc["prods"], conc["start"], key_extra]
@@ -298,7 +319,8 @@ def st_case(draw, max_tokens=12):
     return {"g": g, "probe": probe, "pool": draw(st.integers(0, 4)), "perm": draw(st.permutations(list(range(6)))),
             "syn": draw(st.booleans()), "kw": kw, "explicit_start": draw(st.booleans()), "inputs": inputs,
             "decl": draw(st.sampled_from([None, "bottomup", "shuffle"]).flatmap(
-                lambda d: st.lists(st.integers(0, 9), min_size=6, max_size=6) if d == "shuffle" else st.just(d)))}
+                lambda d: st.lists(st.integers(0, 9), min_size=6, max_size=6) if d == "shuffle" else st.just(d))),
+            "via": draw(st.sampled_from([None, None, "subclass"]))}
 
 
 def eval_token_stream(case):
